@@ -70,6 +70,14 @@ pub fn c12_flush_contended(_sc: &Value) -> Value {
         let r = s3.flush();
         *f2.lock().unwrap() = Some(r.is_ok());
     });
+    // a second emitter arrives while the lock is held: it must wait (or fail) - an Ok means the metric will be sent
+    let s4 = sink.clone();
+    let e_res = Arc::new(std::sync::Mutex::new(None));
+    let e2 = e_res.clone();
+    let e = std::thread::spawn(move || {
+        let r = s4.emit("c:1|c");
+        *e2.lock().unwrap() = Some(r.map_err(|x| x.kind()));
+    });
     std::thread::sleep(Duration::from_millis(500));
     let early = *flushed.lock().unwrap();
     // drain: everything parked can proceed now
@@ -89,8 +97,18 @@ pub fn c12_flush_contended(_sc: &Value) -> Value {
     }
     let _ = b.join();
     let _ = a.join();
+    let _ = e.join();
+    // whatever the contended emitter buffered leaves with this flush
+    let last_flush = sink.flush();
+    std::thread::sleep(Duration::from_millis(50));
     while let Ok(k) = server.recv(&mut buf) {
         got.push(String::from_utf8_lossy(&buf[..k]).to_string());
+    }
+    let e_out = e_res.lock().unwrap().clone();
+    let c_seen = got.iter().filter(|d| d.split('\n').any(|l| l == "c:1|c")).count();
+    if b_blocked && matches!(e_out, Some(Ok(_))) && last_flush.is_ok() && c_seen != 1 {
+        viol.push(json!({"prop": "C12", "clause": "acknowledged-exactly-once", "detail": format!(
+            "emit(\"c:1|c\") returned {:?} while another thread held the sink's lock (blocked in an oversized write); after everything was flushed the metric appears {} times on the wire", e_out, c_seen)}));
     }
     let delivered = got.iter().any(|d| d.contains("a:1|c\n"));
     if acked && b_blocked && early == Some(true) && !delivered {
